@@ -27,7 +27,6 @@ Local Arguments for_loop : simpl never.
 Local Arguments Z.add : simpl never.
 Local Arguments Z.eqb : simpl never.
 Local Arguments Z.of_nat : simpl never.
-Local Arguments Nat.sub : simpl never.
 
 (* ================================================================ the driver *)
 
@@ -826,16 +825,18 @@ End Categorize.
 Lemma call_categorize d (s : str) :
   call gen_env (S d) F_categorize [VStr s] None = CRet (chars_val (categorize s)) None.
 Proof.
-  assert (E : call gen_env (S d) F_categorize [VStr s] None
-              = finish gen_categorize
-                  (match for_loop cat_xs
-                           (exec_block gen_env (call gen_env d)
-                              (GCons cat_s0 (GCons (SFor cat_ys cat_it2 cat_inner) (GCons cat_s2 GNil))))
-                           (enum_from 0 (str_tokens 0 s)) (cat_frame None None None None None []) with
-                   | XNormal fr' => XNormal fr'
-                   | x => x
-                   end)) by reflexivity.
-  rewrite E.
+  cbn [call g_funs gen_env gen_funs]. unfold invoke.
+  cbn [fd_cursor fd_conv_in gen_categorize conv_in fill_args fd_params fd_defaults length Nat.ltb
+       Nat.leb fd_nlocals fd_body map app skipn Nat.sub repeat].
+  rewrite gen_categorize_shape, exec_block_cons.
+  match goal with
+  | |- context [exec_stmt ?e ?c ?st ?fr] =>
+    change (exec_stmt e c st fr)
+      with (for_loop cat_xs
+              (exec_block gen_env (call gen_env d)
+                 (GCons cat_s0 (GCons (SFor cat_ys cat_it2 cat_inner) (GCons cat_s2 GNil))))
+              (enum_from 0 (str_tokens 0 s)) (cat_frame None None None None None []))
+  end.
   destruct (cat_outer_loop (call gen_env d) s 0%Z 0%Z None None None None None [])
     as (a1 & a2 & a3 & a4 & a5 & ->).
   reflexivity.
@@ -853,3 +854,240 @@ Example categorize_glue_example :
   categorize_glue gen_env [92; 97; 0; 8364]%N
   = GDone [mkc 92 0 CEscape; mkc 97 1 CLetter; mkc 0 2 CIgnored; mkc 8364 3 COther].
 Proof. vm_compute. reflexivity. Qed.
+
+(* ========================================================= read and TexSoup *)
+
+(* what the translated read_tex gives on the tokens of a string: the reader
+   translation theorem, in the form the glue consumes it *)
+Lemma run_read_tex toks strict skip : ReadGenEquiv.NE toks ->
+  match parse_tokens toks strict skip with
+  | Ok e =>
+    exists v b body,
+      ReadDSL.run ReadGen.gen_table (ReadDSL.gen_fuel toks) ReadDSL.F_read_tex
+                  [ReadDSL.skip_val skip; ReadDSL.tol_val strict] (ReadDSL.mkbuf toks 0)
+      = ReadDSL.ODone v b
+      /\ ReadDSL.contents_of v = Some body /\ e = ERoot body
+  | Err er =>
+    ReadDSL.run ReadGen.gen_table (ReadDSL.gen_fuel toks) ReadDSL.F_read_tex
+                [ReadDSL.skip_val skip; ReadDSL.tol_val strict] (ReadDSL.mkbuf toks 0)
+    = ReadDSL.OExc er
+  end.
+Proof.
+  intro HNE. pose proof (ReadGenEquiv.parse_tokens_gen_full_ok toks strict skip HNE) as H.
+  unfold ReadDSL.parse_tokens_gen_full in H.
+  destruct (ReadDSL.run ReadGen.gen_table (ReadDSL.gen_fuel toks) ReadDSL.F_read_tex
+                        [ReadDSL.skip_val skip; ReadDSL.tol_val strict] (ReadDSL.mkbuf toks 0))
+    as [v b|er| |]; try discriminate H.
+  - destruct (ReadDSL.contents_of v) as [body|] eqn:Ec; [|discriminate H].
+    inversion H as [H1]. exists v, b, body. auto.
+  - inversion H as [H1]. reflexivity.
+Qed.
+
+Lemma strs_val_map l : strs_val (map VStr l) = Some (map ReadDSL.VStr l).
+Proof. induction l as [|s l IH]; [reflexivity|]. cbn. cbn in IH. rewrite IH. reflexivity. Qed.
+
+(* the call read_tex(<fresh Buffer of toks>, skip, tolerance) *)
+Lemma call_read_tex_ok d toks strict skip : ReadGenEquiv.NE toks ->
+  call gen_env (S d) F_read_tex [tokens_val toks; skip_val skip; tol_val strict] None
+  = match parse_tokens toks strict skip with
+    | Ok _ =>
+      match ReadDSL.run ReadGen.gen_table (ReadDSL.gen_fuel toks) ReadDSL.F_read_tex
+                        [ReadDSL.skip_val skip; ReadDSL.tol_val strict] (ReadDSL.mkbuf toks 0) with
+      | ReadDSL.ODone v _ => CRet (VRead v) None
+      | _ => CUnsup
+      end
+    | Err er => CRet (VReadExc er) None
+    end.
+Proof.
+  intro HNE. pose proof (run_read_tex toks strict skip HNE) as R.
+  cbn [call call_read_tex tokens_val skip_val tol_val]. rewrite all_some_token, strs_val_map.
+  cbn [option_map g_reader gen_env].
+  change (ReadDSL.VTuple (map ReadDSL.VStr skip)) with (ReadDSL.skip_val skip).
+  change (ReadDSL.VInt (if strict then 0%Z else 1%Z)) with (ReadDSL.tol_val strict).
+  destruct (parse_tokens toks strict skip) as [e|er].
+  - destruct R as (v & b & body & -> & _ & _). reflexivity.
+  - rewrite R. reflexivity.
+Qed.
+
+Definition rd_parts : option (gs * gblock) :=
+  match gen_read_body with
+  | GCons s0 rest => Some (s0, rest)
+  | GNil => None
+  end.
+Definition rd_first : gs := match rd_parts with Some (s, _) => s | None => SPass end.
+Definition rd_rest : gblock := match rd_parts with Some (_, r) => r | None => GNil end.
+
+Lemma gen_read_shape : gen_read_body = GCons rd_first rd_rest.
+Proof. reflexivity. Qed.
+
+(* frames of read: tex, skip_envs, tolerance, buf *)
+Definition rd_frame (tex : value) (skip : list str) (strict : bool) (o3 : option value) : frame :=
+  mkfr [Some tex; Some (skip_val skip); Some (tol_val strict); o3] None [].
+
+Definition read_cres (s : str) (r : res expr) : cres :=
+  match r with
+  | Ok e => CRet (VTuple [VExpr e; VStr s]) None
+  | Err er => CExc (XErr er)
+  end.
+
+(* categorize -> tokenize -> read_tex -> TexEnv('[tex]', ...) on a str *)
+Lemma read_rest_ok d s skip strict o3 :
+  finish gen_read (exec_block gen_env (call gen_env (S (S d))) rd_rest (rd_frame (VStr s) skip strict o3))
+  = read_cres s (parse s strict skip).
+Proof.
+  pose proof (call_categorize (S d) s) as C1.
+  destruct (call_tokenize d (categorize s) (categorize_from_consecutive 0 s)) as (b' & C2 & Hend).
+  unfold parse. change (tokens_of_string s) with (tokenize (categorize s)).
+  destruct (tokenize (categorize s)) as [toks e] eqn:Et. cbn [fst snd] in *. subst e.
+  assert (HNE : ReadGenEquiv.NE toks).
+  { destruct (tokens_concat s toks TEnd Et) as (_ & _ & H). exact H. }
+  pose proof (call_read_tex_ok (S d) toks strict skip HNE) as C3.
+  pose proof (run_read_tex toks strict skip HNE) as R.
+  unfold rd_rest, rd_frame. cbn [rd_parts gen_read_body blk].
+  cbn [exec_block exec_stmt do_call eval_list eval get_loc nth_error fr_loc fr_text].
+  rewrite C1.
+  cbn [flat_map used_vars app consume get_loc nth_error fr_loc is_iter bind_targets set_loc upd
+       fr_text fr_out].
+  cbn [exec_block exec_stmt do_call eval_list eval get_loc nth_error fr_loc fr_text].
+  rewrite C2.
+  cbn [flat_map used_vars app consume get_loc nth_error fr_loc is_iter chars_val clear_loc
+       bind_targets set_loc upd fr_text fr_out].
+  cbn [exec_block exec_stmt do_call eval_list eval get_loc nth_error fr_loc fr_text].
+  rewrite C3.
+  destruct (parse_tokens toks strict skip) as [e|er].
+  - destruct R as (v & b & body & -> & Ec & ->). cbn. rewrite Ec. reflexivity.
+  - cbn. reflexivity.
+Qed.
+
+(* READ on a str *)
+Lemma call_read_str d s skip strict :
+  call gen_env (S (S (S d))) F_read [VStr s; skip_val skip; tol_val strict] None
+  = read_cres s (parse s strict skip).
+Proof.
+  rewrite <- (read_rest_ok d s skip strict None).
+  cbn [call g_funs gen_env gen_funs]. unfold invoke.
+  cbn [fd_cursor fd_conv_in gen_read fill_args fd_params fd_defaults length Nat.ltb Nat.leb
+       fd_nlocals fd_body]. rewrite gen_read_shape, exec_block_cons.
+  reflexivity.
+Qed.
+
+(* itertools.chain( *chunks ) followed by ''.join: the concatenation *)
+Lemma chain_strs l :
+  chain_items (map VStr l) = Some (map (fun c => VStr [c]) (concat l)).
+Proof.
+  induction l as [|s l IH]; [reflexivity|].
+  cbn [map chain_items items_of concat]. rewrite IH, map_app. reflexivity.
+Qed.
+
+Lemma join_chars cs :
+  all_some text_of (map (fun c : N => VStr [c]) cs) = Some (map (fun c => [c]) cs)
+  /\ join_strs [] (map (fun c : N => [c]) cs) = cs.
+Proof.
+  induction cs as [|c cs [IH1 IH2]]; [split; reflexivity|]. split.
+  - cbn. cbn in IH1. rewrite IH1. reflexivity.
+  - cbn [map join_strs]. destruct cs as [|c' cs']; [reflexivity|].
+    cbn [map] in *. rewrite IH2. reflexivity.
+Qed.
+
+(* READ on a list of chunks: flattened first, then as on a str *)
+Lemma call_read_chunks d l skip strict :
+  call gen_env (S (S (S d))) F_read [chunks_val l; skip_val skip; tol_val strict] None
+  = call gen_env (S (S (S d))) F_read [VStr (concat l); skip_val skip; tol_val strict] None.
+Proof.
+  rewrite call_read_str, <- (read_rest_ok d (concat l) skip strict None).
+  cbn [call g_funs gen_env gen_funs]. unfold invoke.
+  cbn [fd_cursor fd_conv_in gen_read fill_args fd_params fd_defaults length Nat.ltb Nat.leb
+       fd_nlocals fd_body]. rewrite gen_read_shape, exec_block_cons.
+  assert (E : exec_stmt gen_env (call gen_env (S (S d))) rd_first
+                (mkfr (map Some ([chunks_val l; skip_val skip; tol_val strict] ++ skipn (2 - (3 - 3)) [VTuple []; VInt 0%Z])
+                       ++ repeat None (4 - length ([chunks_val l; skip_val skip; tol_val strict] ++ skipn (2 - (3 - 3)) [VTuple []; VInt 0%Z])))
+                      None [])
+              = XNormal (rd_frame (VStr (concat l)) skip strict None)).
+  { unfold rd_first, rd_frame, chunks_val. cbn [rd_parts gen_read_body blk].
+    cbn. rewrite chain_strs. destruct (join_chars (concat l)) as [-> ->].
+    destruct l; reflexivity. }
+  rewrite E. reflexivity.
+Qed.
+
+(* ---- TexSoup *)
+
+Definition soup_cres (s : str) (r : res expr) : cres :=
+  match r with
+  | Ok e => CRet (VNode e (Some s)) None
+  | Err er => CExc (XErr er)
+  end.
+
+Lemma call_soup_str d s skip strict :
+  call gen_env (S (S (S (S d)))) F_TexSoup [VStr s; skip_val skip; tol_val strict] None
+  = soup_cres s (parse s strict skip).
+Proof.
+  pose proof (call_read_str d s skip strict) as C.
+  cbn [call g_funs gen_env gen_funs]. unfold invoke.
+  cbn [fd_cursor fd_conv_in gen_TexSoup fill_args fd_params fd_defaults length Nat.ltb Nat.leb
+       fd_nlocals fd_body gen_TexSoup_body blk].
+  cbn [exec_block exec_stmt do_call eval_list eval get_loc nth_error fr_loc fr_text map app skipn
+       Nat.sub repeat].
+  rewrite C. destruct (parse s strict skip) as [e|er]; reflexivity.
+Qed.
+
+Lemma call_soup_chunks d l skip strict :
+  call gen_env (S (S (S (S d)))) F_TexSoup [chunks_val l; skip_val skip; tol_val strict] None
+  = call gen_env (S (S (S (S d)))) F_TexSoup [VStr (concat l); skip_val skip; tol_val strict] None.
+Proof.
+  rewrite call_soup_str.
+  pose proof (call_read_chunks d l skip strict) as C. rewrite call_read_str in C.
+  cbn [call g_funs gen_env gen_funs]. unfold invoke.
+  cbn [fd_cursor fd_conv_in gen_TexSoup fill_args fd_params fd_defaults length Nat.ltb Nat.leb
+       fd_nlocals fd_body gen_TexSoup_body blk].
+  cbn [exec_block exec_stmt do_call eval_list eval get_loc nth_error fr_loc fr_text map app skipn
+       Nat.sub repeat].
+  rewrite C. destruct (parse (concat l) strict skip) as [e|er]; reflexivity.
+Qed.
+
+(* ---- from the top (call depth 4) *)
+
+Theorem read_str_ok s skip strict :
+  top_call gen_env F_read [VStr s; skip_val skip; tol_val strict]
+  = read_result s (parse s strict skip).
+Proof.
+  unfold top_call. rewrite (call_read_str 1). destruct (parse s strict skip); reflexivity.
+Qed.
+
+Theorem read_chunks_ok l skip strict :
+  top_call gen_env F_read [chunks_val l; skip_val skip; tol_val strict]
+  = top_call gen_env F_read [VStr (concat l); skip_val skip; tol_val strict].
+Proof. unfold top_call. rewrite (call_read_chunks 1). reflexivity. Qed.
+
+(* the default arguments: skip_envs=(), tolerance=0 *)
+Theorem read_defaults_ok s :
+  top_call gen_env F_read [VStr s] = read_result s (parse s true []).
+Proof. rewrite <- (read_str_ok s [] true). reflexivity. Qed.
+
+Theorem soup_str_ok s skip strict :
+  top_call gen_env F_TexSoup [VStr s; skip_val skip; tol_val strict]
+  = soup_result s (parse s strict skip).
+Proof.
+  unfold top_call. rewrite (call_soup_str 0). destruct (parse s strict skip); reflexivity.
+Qed.
+
+Theorem soup_chunks_ok l skip strict :
+  top_call gen_env F_TexSoup [chunks_val l; skip_val skip; tol_val strict]
+  = top_call gen_env F_TexSoup [VStr (concat l); skip_val skip; tol_val strict].
+Proof. unfold top_call. rewrite (call_soup_chunks 0). reflexivity. Qed.
+
+Theorem soup_defaults_ok s :
+  top_call gen_env F_TexSoup [VStr s] = soup_result s (parse s true []).
+Proof. rewrite <- (soup_str_ok s [] true). reflexivity. Qed.
+
+(* non-vacuity: \a{} as a str and in two chunkings; an unclosed group *)
+Example read_example :
+  top_call gen_env F_read [VStr [92; 97; 123; 125]%N; skip_val []; tol_val true]
+  = GDone (VTuple [VExpr (ERoot [ECmd [97%N] [EGroup GBrace [] 2] [] 0]);
+                   VStr [92; 97; 123; 125]%N])
+  /\ top_call gen_env F_read [chunks_val [[92; 97]%N; []; [123; 125]%N]; skip_val []; tol_val true]
+     = GDone (VTuple [VExpr (ERoot [ECmd [97%N] [EGroup GBrace [] 2] [] 0]);
+                      VStr [92; 97; 123; 125]%N])
+  /\ top_call gen_env F_TexSoup [VStr [92; 97; 123]%N] = GRaise (XErr TypeError)
+  /\ top_call gen_env F_TexSoup [VStr [92; 97; 123]%N; skip_val []; tol_val false]
+     = GDone (VNode (ERoot [ECmd [97%N] [EGroup GBrace [] 2] [] 0]) (Some [92; 97; 123]%N)).
+Proof. repeat split; vm_compute; reflexivity. Qed.
